@@ -13,6 +13,11 @@ func Assert_not_error_Validate(args []value.Value) error {
 	if len(args) > 1 {
 		return errors.ArgumentNotInRange(Assert_not_error_Name, 0, 1, args)
 	}
+	if len(args) == 1 {
+		if args[0].Type() != value.StringType {
+			return errors.TypeMismatch(Assert_not_error_Name, 1, value.StringType, args[0].Type())
+		}
+	}
 
 	return nil
 }
